@@ -254,7 +254,8 @@ def run_tridiag(case, feat, key):
         B = B.clone()
         B[..., :, 0] = (A @ Vv.real[..., :, :1]).squeeze(-1) if False else torch.linalg.solve(Pf0, Vv.real[..., :, 0].unsqueeze(-1)).squeeze(-1)
     subs = []
-    for m in range(1, n + 1):
+    # budgets up to n + 2: a Lanczos matrix of an n-dimensional operator has at most n steps whatever max_tridiag_iter / max_iter allow
+    for m in range(1, n + 3):
         with warnings.catch_warnings():
             warnings.simplefilter("ignore")
             out = call(linear_cg, A.matmul, B, n_tridiag=ntri, tolerance=0.0, max_iter=max(m, 1) + 2, max_tridiag_iter=m, preconditioner=pre)
@@ -264,8 +265,8 @@ def run_tridiag(case, feat, key):
             subs.append(result(VIOL, kind="internal-error", exc=out.type, msg=f"m={m}: {out.msg} @ {out.where()}", feat=f, keys=[skey]))
             break
         x, T = out
-        if tuple(T.shape[:-2]) != (ntri, *b) or T.shape[-1] != T.shape[-2] or T.shape[-1] > m:
-            subs.append(result(VIOL, kind="shape", msg=f"m={m}: tridiagonal batch has shape {tuple(T.shape)}, expected ({ntri}, *{b}, <= {m}, <= {m})", feat=f, keys=[skey]))
+        if tuple(T.shape[:-2]) != (ntri, *b) or T.shape[-1] != T.shape[-2] or T.shape[-1] > min(m, n):
+            subs.append(result(VIOL, kind="shape", msg=f"m={m}: tridiagonal batch has shape {tuple(T.shape)}, expected ({ntri}, *{b}, <= {min(m, n)}, <= {min(m, n)})", feat=f, keys=[skey]))
             break
         bad = None
         worst = 0.0
